@@ -921,13 +921,20 @@ def _run_tree(tree, flow_ctxs, redeliver=None, full=True):
                 res["neutral"] = {"r": _out_pairs(_neutral_run(tree, ref, make_flow))}
             except Exception as e:
                 res["neutral"] = {"e": exc_name(e), "msg": str(e)[:200]}
+            if res["neutral"] == res["out"]:
+                res["neutral"] = "="            # compact
             if any(nd["k"] == "mkf" for nd in preorder(tree)):
                 try:
                     res["neutral0"] = {"r": _out_pairs(_neutral_run(tree, ref, make_flow, seed_mkf=False))}
                 except Exception as e:
                     res["neutral0"] = {"e": exc_name(e), "msg": str(e)[:200]}
+                if "r" in res["neutral0"] and "r" in res["out"] and \
+                        _erase_names(res["neutral0"]["r"]) == _erase_names(res["out"]["r"]):
+                    res["neutral0"] = "="       # compact
     if not any(nd["k"] in ("hset", "hrun") for nd in preorder(tree)):
-        res["fresh_names"] = {str(k): v for k, v in _fresh_names(tree, Ref(tree)).items()}
+        # (compact: only the names that differ from what the element of the tree derived are kept)
+        res["fresh_names"] = {str(k): v for k, v in _fresh_names(tree, Ref(tree)).items()
+                              if v != recs[k].get("name")}
     if redeliver:
         raised = []
         for c in redeliver:
@@ -1047,7 +1054,7 @@ def oracle(case, res):
             msg = _cmp("fold", idx, node, e2, g2, fields=("seen",))
         elif node["k"] in ("mkf", "write", "cache") and not hostile:
             msg = _cmp("fold", idx, node, exp, got, fields=("seen",))
-            if msg is None and str(idx) in fresh and fresh[str(idx)] != got.get("name"):
+            if msg is None and str(idx) in fresh:
                 msg = (f"node #{idx} {node}: derived name is {got.get('name')}, a fresh element handed the prefix fold "
                        f"derives {fresh[str(idx)]}")
         else:
@@ -1065,7 +1072,7 @@ def oracle(case, res):
     got = res.get("out")
     if got is not None and "e" in got and not hostile:
         return f"running the flow raised {got}"
-    if got is not None and res.get("neutral") is not None:
+    if got is not None and res.get("neutral") not in (None, "="):
         if res["neutral"] != got:
             return (f"run-time result {got} differs from {res['neutral']}, the result of the same tree without its "
                     f"SetContext elements whose UpdateContextFromStatic / MakeFilename were handed the prefix fold "
@@ -1073,7 +1080,7 @@ def oracle(case, res):
     # (2a) frame of MakeFilename: what it derives from static context reaches the run-time contexts only as
     # output.prefix / suffix / filename / dirname / fileext — with those keys erased, the flow is the one of the tree
     # in which every MakeFilename was handed a static context with the same keys and other scalar values
-    if got is not None and res.get("neutral0") is not None and "r" in got and "r" in res["neutral0"]:
+    if got is not None and res.get("neutral0") not in (None, "=") and "r" in got and "r" in res["neutral0"]:
         a, b = _erase_names(got["r"]), _erase_names(res["neutral0"]["r"])
         if a != b:
             return (f"run-time result {got['r']}: outside output.prefix/suffix/filename/dirname/fileext it differs from "
